@@ -26,16 +26,7 @@ Theorem C18_unique_holders : forall fmt ls h1 h2 id1 id2, mints ls < two64 ->
   In (h1, id1) (live (fold_left step ls init)) -> In (h2, id2) (live (fold_left step ls init)) -> h1 <> h2 ->
   id1 <> id2 /\ name_text fmt id1 <> name_text fmt id2 /\ id1 <> 0 /\ id2 <> 0 /\
   ~ In id1 (free (fold_left step ls init)) /\ ~ In id1 (taken (fold_left step ls init)).
-Proof.
-  intros fmt ls h1 h2 id1 id2 M A B NE.
-  pose proof (inv_reachable ls M) as I. unfold run_steps in I.
-  pose proof (live_id_range _ _ _ I A) as R1. pose proof (live_id_range _ _ _ I B) as R2.
-  assert (D : id1 <> id2).
-  { intros E. subst id2. apply NE. eapply unique_holders; [exact I | exact A | exact B]. }
-  split; [exact D|].
-  split; [intros T; apply D; apply (name_text_inj fmt); [lia | lia | exact T]|].
-  split; [lia|]. split; [lia|]. exact (held_not_pooled _ _ _ I A).
-Qed.
+Proof. exact unique_holders_full. Qed.
 
 (* the text determines the id for every format of the modelled class (also without a verb: Sprintf appends
    %!(EXTRA uint64=id)) *)
@@ -64,9 +55,7 @@ Proof. exact release_spec. Qed.
 Theorem C18_release_idempotent : forall s h, step (step s (SRelease h)) (SRelease h) = step s (SRelease h).
 Proof. exact release_idempotent. Qed.
 Theorem C18_release_nil : forall s h, h = 0 \/ lookup h (live s) = 0 -> step s (SRelease h) = s.
-Proof.
-  intros s h H. destruct H as [H|H]; [subst h; apply release_nil_noop | apply release_cleared_noop; exact H].
-Qed.
+Proof. exact release_nil_or_cleared. Qed.
 
 (* (6) A recorded history that the replay accepts is a run of the model and ends in an invariant state *)
 Theorem C18_replay_sound : forall strict fmt evs s', replay strict fmt init 0 evs = (None, s') ->
@@ -123,7 +112,7 @@ Example C18_reachable_example :
   inv s /\ live s = [(9, 3); (7, 2)] /\ free s = [1] /\ taken s = [4] /\ counter s = 4 /\
   free (step s (SDrop [1])) = [] /\ invb s = true.
 Proof.
-  cbv zeta. split; [apply inv_reachable; vm_compute; reflexivity|].
+  cbv zeta. split; [apply C18_invariant_reachable; vm_compute; reflexivity|].
   vm_compute. repeat split; reflexivity.
 Qed.
 Example C18_text_examples :
